@@ -69,6 +69,14 @@ def alphabet(name, ph=0.0):
     if name == "2d-full":
         pos = [0.5, 2.2, 4.1]
         return [([x + ph, y], 0.6) for x in pos for y in pos] + [([2.2 + ph, 2.2], 1.1)], 5.0, 2
+    if name.startswith("2d-crowd"):
+        # N static, well separated background droplets (more than any plausible small-collection threshold) + one stage with actor types
+        # that grow, shrink, move and vanish: types 0..N-1 are the background, N.. the actors
+        N = int(name.split("-")[2])
+        lattice = [(40.0 * i, 40.0 * j) for j in range(7) for i in range(10)][:N]
+        bg = [([x + ph, y], 2.0) for x, y in lattice]
+        actors = [([60.0 + dx + ph, 20.0 + dy], r) for dx, dy in ((0.0, 0.0), (8.0, 0.0), (13.5, 0.0), (0.0, -7.0)) for r in (10.0, 3.0)]
+        return bg + actors, 400.0, 2
     if name == "3d":
         return [([x + ph, 0.6, 0.7], r) for x in (0.6, 2.9) for r in (0.5, 1.3)], 4.0, 3
     if name == "3d-full":
@@ -82,6 +90,14 @@ def frames(ntypes, maxn, ordered):
         it = itertools.product(range(ntypes), repeat=n) if ordered else itertools.combinations_with_replacement(range(ntypes), n)
         out.extend(it)
     return out
+
+
+def frames_of(block, T):
+    if block["alph"].startswith("2d-crowd"):
+        N = int(block["alph"].split("-")[2])
+        bg = tuple(range(N))
+        return [bg] + [bg + (a,) for a in range(N, len(T))]
+    return frames(len(T), block["maxn"], block["ordered"])
 
 
 def grid_spec(L, dim, periodic=True, origin=0.0):
@@ -105,7 +121,7 @@ def configs():
     out = []
     for grid in (False, True):
         out.append({"method": "overlap", "grid": grid})
-        for md in ("inf", 1.25, 0.5, -1.0):
+        for md in ("inf", 1.25, 0.5, 0.0, -1.0):  # 0: only droplets that did not move at all are linked
             out.append({"method": "distance", "grid": grid, "max_dist": md})
     # the same periodic box with a non-zero lower bound (the period, hence the metric, is unchanged)
     out.append({"method": "overlap", "grid": "shifted"})
@@ -124,7 +140,7 @@ def make_blocks(tier, seed):
 
     def add(alph, maxn, ordered, depth, times, split=False, **kw):
         T, L, dim = alphabet(alph, ph)
-        F = frames(len(T), maxn, ordered)
+        F = frames_of({"alph": alph, "maxn": maxn, "ordered": ordered}, T)
         base = dict({"alph": alph, "phase": ph, "cfg": cfg, "maxn": maxn, "ordered": ordered, "depth": depth, "times": times}, **kw)
         if split:
             for i0 in range(len(F)):
@@ -169,6 +185,19 @@ def make_blocks(tier, seed):
         add("2d", 2, False, 2, "half-offset", split=True)
         add("2d", 1, True, 3, "unit")
         add("3d", 2, False, 2, "neg-int")
+        # life cycles of the frames before tracking (see build)
+        if not light and not trivial:
+            for life in ("linked", "pickled", "deepcopied-members", "rows"):
+                add("1d-small", 2, False, 2, "unit", life=life)
+                if cfg.get("max_dist") in (None, "inf"):
+                    add("2d", 2, False, 2, "half-offset", life=life)
+        # crowds: many static droplets (beyond small-collection thresholds) and one actor that grows / shrinks / moves / vanishes
+        if cfg["grid"] in (False, True) and cfg.get("max_dist") in (None, "inf", 1.25):
+            if cfg["grid"] is False or tier == "thorough":
+                add("2d-crowd-70", 1, False, 2, "half-offset", min_len=2)
+            add("2d-crowd-17", 1, False, 3 if (cfg.get("max_dist") in (None, "inf") and (cfg["grid"] is False or tier == "thorough")) else 2, "unit", split=True, min_len=2)
+        elif not trivial and not light:
+            add("2d-crowd-17", 1, False, 2, "nonuniform", min_len=2)
         if tier == "thorough":
             add("1d-dyadic", 2, False, 3, "half-offset", split=True)
             add("1d-dyadic", 3, False, 2, "nonuniform", split=True, min_len=2)
@@ -186,7 +215,7 @@ def make_blocks(tier, seed):
 
 def histories(block):
     T, L, dim = alphabet(block["alph"], block["phase"])
-    F = frames(len(T), block["maxn"], block["ordered"])
+    F = frames_of(block, T)
     depth = block["depth"]
     first = block["first"]
     if first is None:
@@ -215,6 +244,22 @@ def build(block, hist):
     for fr in hist:
         # alternate the droplet class between types so that class information must survive as well
         ems.append(Emulsion([(DiffuseDroplet(np.array(T[i][0], float), T[i][1], 0.1 * (i + 1)) if block["alph"] in ("2d", "2d-full") else SphericalDroplet(np.array(T[i][0], float), T[i][1])) for i in fr]))
+    if block.get("life"):
+        # life cycles: the frames went through something before being tracked
+        import copy
+        import pickle
+
+        life = block["life"]
+        if life == "linked":  # members are rows of one shared array per frame
+            for em in ems:
+                if len(em) and len({type(d) for d in em}) == 1:
+                    em.get_linked_data()
+        elif life == "pickled":
+            ems = [pickle.loads(pickle.dumps(em)) for em in ems]
+        elif life == "deepcopied-members":
+            ems = [Emulsion([copy.deepcopy(d) for d in em], copy=False) for em in ems]
+        elif life == "rows":  # droplets rebuilt from the rows of the frame's plain data array
+            ems = [Emulsion([type(em[0]).from_data(np.rec.array(em.data)[i]) for i in range(len(em))]) if len(em) and len({type(d) for d in em}) == 1 else em for em in ems]
     if block.get("how") == "ctor+append":
         # the first frames carry explicit stamps, the others are appended without one: the library's own stamps are used from there
         m = min(block["explicit"], len(ems))
